@@ -146,7 +146,10 @@ def conn_sender(w, sizes, doomed):
     from harness.conn import payload
     for m, n in enumerate(sizes, 1):
         data = payload(m, n)
-        if m % 2:
+        if n and n % 4 == 0 and m % 3 == 0:
+            import array
+            w.send_bytes(array.array('I', b'abcd' + data + b'wxyz'), 4, n)     # 4-byte items
+        elif m % 2:
             w.send_bytes(data)
         else:
             w.send_bytes(memoryview(b'##' + data + b'!!'), 2, n)
